@@ -156,20 +156,7 @@ func checkC01(c *Ctx, r *Report) {
 					switch x := ref.(type) {
 					case *ssa.Store:
 						fresh := isFreshBase(fa.X)
-						src := false
-						if call, isCall := x.Val.(*ssa.Call); isCall && calleeName(call) == "(*bytes.Buffer).Bytes" {
-							// buffer must be function-local: bytes.NewBuffer(make(...)) in this function
-							if nb, ok := callArgs(call)[0].(*ssa.Call); ok && calleeName(nb) == "bytes.NewBuffer" {
-								if sl, ok := nb.Call.Args[0].(*ssa.Slice); ok {
-									if _, isAlloc := sl.X.(*ssa.Alloc); isAlloc {
-										src = true
-									}
-								}
-								if _, ok := nb.Call.Args[0].(*ssa.MakeSlice); ok {
-									src = true
-								}
-							}
-						}
+						src := privateBufferBytes(li, x.Val, map[ssa.Value]bool{})
 						r.Check(fresh && src, "C01.R2", fnKey(f)+": body slice assigned once from a private buffer", c.InstrPos(x), "initialising store on a fresh entry; source is a function-local bytes.Buffer", "the stored body is (re)assigned after publication or comes from a shared/pooled buffer: readers can observe another response's bytes")
 					case *ssa.UnOp:
 						// loaded slice: allowed consumers
@@ -193,7 +180,6 @@ func checkC01(c *Ctx, r *Report) {
 	}
 	// memory R3
 	for _, f := range c.FuncsNamed("(*" + cachePkg + ".MemoryCache).cacheInternal") {
-		rf := findCall(f, "(*bytes.Buffer).ReadFrom")
 		var upd *ssa.MapUpdate
 		eachInstr(f, func(in ssa.Instruction) {
 			if u, ok := in.(*ssa.MapUpdate); ok {
@@ -202,14 +188,77 @@ func checkC01(c *Ctx, r *Report) {
 				}
 			}
 		})
-		if rf == nil || upd == nil {
+		// the copy of the origin body: in this function, or in its caller(s) before the call (the body is read
+		// before the lock is taken and handed on as a byte slice)
+		type copySite struct {
+			rf   *ssa.Call
+			fn   *ssa.Function
+			site ssa.Instruction // what must be dominated by the copy having succeeded: the insert, or the call of f
+		}
+		var copies []copySite
+		if rf := findCall(f, "(*bytes.Buffer).ReadFrom"); rf != nil && upd != nil {
+			copies = append(copies, copySite{rf, f, upd})
+		} else {
+			for _, cs := range li.Callers[f] {
+				if cs.caller == f {
+					continue // the retry after an eviction passes its own parameter on
+				}
+				if rf := findCall(cs.caller, "(*bytes.Buffer).ReadFrom"); rf != nil {
+					copies = append(copies, copySite{rf, cs.caller, cs.in})
+				} else {
+					copies = append(copies, copySite{nil, cs.caller, cs.in})
+				}
+			}
+		}
+		if upd == nil || len(copies) == 0 {
 			r.Fail("C01.R3", "memory backend: publish only after a complete copy", c.Pos(f.Pos()), "ReadFrom or map insert not found")
 			continue
 		}
-		errv := extractOf(rf, 1)
-		src := unconv(callArgs(rf)[1]) == ssa.Value(paramNamed(f, "data"))
-		r.Check(errv != nil && src && onlyWhenNil(f, upd, errv, true), "C01.R3", "memory backend: publish only after a complete copy", c.InstrPos(upd), "map insert dominated by ReadFrom(data) err == nil", "the entry is inserted although reading the origin body failed: a truncated body is published")
-		checkSizeIsCount(c, r, f, rf, "C01.R3", "memory backend")
+		okAll := true
+		for _, cp := range copies {
+			if cp.rf == nil {
+				okAll = false
+				continue
+			}
+			errv := extractOf(cp.rf, 1)
+			var srcParam bool
+			if prm, ok := unconv(callArgs(cp.rf)[1]).(*ssa.Parameter); ok && prm.Parent() == cp.fn {
+				srcParam = true
+			}
+			if errv == nil || !srcParam || !onlyWhenNil(cp.fn, cp.site, errv, true) {
+				okAll = false
+			}
+		}
+		r.Check(okAll, "C01.R3", "memory backend: publish only after a complete copy", c.InstrPos(upd), "map insert dominated by ReadFrom(data) err == nil (in the store function or in the caller that hands the bytes on)", "the entry is inserted although reading the origin body failed: a truncated body is published")
+		// Size: the count returned by the copy, or the length of the very slice that is stored
+		okSize := false
+		eachInstr(f, func(in ssa.Instruction) {
+			st, isSt := in.(*ssa.Store)
+			if !isSt {
+				return
+			}
+			fv, base, is := fieldOf(st.Addr)
+			if !is || fv.Name() != "Size" || !strings.HasPrefix(structName(base.Type()), cachePkg+".EntryMetadata") {
+				return
+			}
+			v := unconvNum(st.Val)
+			for _, cp := range copies {
+				if e, isE := v.(*ssa.Extract); isE && cp.rf != nil && e.Tuple == ssa.Value(cp.rf) && e.Index == 0 {
+					okSize = true
+				}
+			}
+			if inner, isLen := lenOf(v); isLen {
+				// len(x) where x is the slice stored as the body
+				eachInstr(f, func(i2 ssa.Instruction) {
+					if s2, ok := i2.(*ssa.Store); ok {
+						if fv2, _, is2 := fieldOf(s2.Addr); is2 && originVar(fv2) == dataField && sameVal(s2.Val, inner) {
+							okSize = true
+						}
+					}
+				})
+			}
+		})
+		r.Check(okSize, "C01.R3", "memory backend: recorded Size is the number of bytes copied", c.Pos(f.Pos()), "Size = count returned by the copy / length of the stored slice", "the Size recorded with the entry is not the byte count of the body that is stored: Content-Length / range validation disagree with the stored bytes")
 		// R4: no delete in store
 		bad := ""
 		eachInstr(f, func(in ssa.Instruction) {
@@ -297,6 +346,57 @@ func checkC01(c *Ctx, r *Report) {
 }
 
 // checkSizeIsCount: the value stored into EntryMetadata.Size in f is result #0 of copyCall.
+// privateBufferBytes: v is the Bytes() of a bytes.Buffer created in the same function over a fresh slice, or a
+// parameter for which every caller passes such a value (a retry that passes its own parameter on is fine).
+func privateBufferBytes(li *LockInfo, v ssa.Value, assume map[ssa.Value]bool) bool {
+	v = resolveVal(v)
+	if assume[v] {
+		return true
+	}
+	if call, isCall := v.(*ssa.Call); isCall && calleeName(call) == "(*bytes.Buffer).Bytes" {
+		if nb, ok := resolveVal(callArgs(call)[0]).(*ssa.Call); ok && calleeName(nb) == "bytes.NewBuffer" {
+			if sl, ok := nb.Call.Args[0].(*ssa.Slice); ok {
+				if _, isAlloc := sl.X.(*ssa.Alloc); isAlloc {
+					return true
+				}
+			}
+			if _, ok := nb.Call.Args[0].(*ssa.MakeSlice); ok {
+				return true
+			}
+		}
+		return false
+	}
+	if prm, ok := v.(*ssa.Parameter); ok {
+		f := prm.Parent()
+		idx := -1
+		for i, q := range f.Params {
+			if q == prm {
+				idx = i
+			}
+		}
+		cs := li.Callers[f]
+		if idx < 0 || len(cs) == 0 {
+			return false
+		}
+		as := map[ssa.Value]bool{v: true}
+		for k := range assume {
+			as[k] = true
+		}
+		for _, site := range cs {
+			call, ok := asCall(site.in)
+			if !ok {
+				return false
+			}
+			a := callArgs(call)
+			if idx >= len(a) || !privateBufferBytes(li, a[idx], as) {
+				return false
+			}
+		}
+		return true
+	}
+	return false
+}
+
 func checkSizeIsCount(c *Ctx, r *Report, f *ssa.Function, copyCall *ssa.Call, rule, which string) {
 	ok := false
 	eachInstr(f, func(in ssa.Instruction) {
